@@ -132,6 +132,17 @@ def plan(tier):
         cases.append({"spec": s2, "lines": lines_of(s2)[::-1], "label": f"{n_images + 2} product files, reversed text"})
     for n_shapes in (1, 2, 3):
         cases.append({"spec": sc, "lines": lines_of(sc, n_shapes), "label": f"{n_shapes} shape indices"})
+    # every order of the shape lines among their own slots: pixels and lines of one index pair up by index, not by position
+    for n_shapes in (2, 3):
+        l0 = lines_of(sc, n_shapes)
+        idxs = [i for i, l in enumerate(l0) if l.startswith(("Pdi_NoOfPixels", "Pdi_NoOfLines"))]
+        for perm in itertools.permutations(idxs):
+            if list(perm) == idxs:
+                continue
+            l = list(l0)
+            for src, dst in zip(perm, idxs):
+                l[dst] = l0[src]
+            cases.append({"spec": sc, "lines": l, "label": f"{n_shapes} shape indices, shape lines in order {[j - idxs[0] for j in perm]}", "seam": n_shapes > 2})
     return cases
 
 
@@ -290,7 +301,7 @@ def execute_malformed_full(case):
 def run(res, tier, seed):
     res.rule = (
         "well-formed: baseline; 7 free-text keys x 7 value shapes; CRLF / no final newline; all rotations, adjacent transpositions,"
-        " reversal; all permutations within each section (<=5 lines); 3..10 product files (also reversed); 1..3 shape indices -"
+        " reversal; all permutations within each section (<=5 lines); 3..10 product files (also reversed); 1..3 shape indices, and every order of the 4 / 6 shape lines of 2 / 3 indices (23 + 719 texts) -"
         " each through open_alos2 and compared with the summary reference model. Malformed: all 4095 non-empty subsets of a 12-line"
         " summary x 19 corruption kinds (9 of them with non-ASCII letters / underscore / quote / invisible characters incl. a byte order mark) + all kind pairs on 2-subsets through summary.open_summary; one kind per subset size and all"
         " single lines through open_alos2. File roles: every rotation / adjacent transposition / reversal of the typed names over the ProductFileNameNN numbers for 4, 5 and 7 files. Every corrupted line is rejected by an independent line recogniser (asserted)."
